@@ -2,6 +2,7 @@ import KernDriver.Tokens
 import KernDriver.Abstract
 import KernModel.Spec.Tracker
 import KernModel.Spec.TextExport
+import KernModel.Spec.NormalForm
 namespace KD.DocOps
 open Lean KM KD KD.TokOps
 
@@ -126,6 +127,13 @@ def handle (op : String) (j : Json) : Except String Json := do
     let t := KM.Spec.Track.run rows
     pure (Json.mkObj [("wf", Json.bool (KM.Spec.Track.wf rows)),
       ("skel", Json.arr (t.skel.map (fun st => Json.arr (st.map (fun s => Json.arr #[jocoord s.1, jocoord s.2])).toArray)).toArray)])
+  | "doc.norm" =>
+    -- the cell-wise normal form of a text (C01's text-level specification), with the per-cell parser from the harness's table
+    let text ← getStr j "text"
+    let table ← oracleOfJson (← j.getObjVal? "oracle")
+    let rows := readRows text
+    let n := KM.C01N.normalForm (parserOf table) rows
+    pure (Json.mkObj [("rows", Json.arr (n.map (fun r => Json.arr (r.map jstr).toArray)).toArray)])
   | "doc.rows" =>
     let text ← getStr j "text"
     pure (Json.arr ((readRows text).map (fun r => Json.arr (r.map jstr).toArray)).toArray)
